@@ -6,10 +6,11 @@ from __future__ import annotations
 import ast
 
 from ..cfg import CFG
-from ..core import AnalysisError, const_value
+from ..astutil import cond_terms, inside, norm_cmp
+from ..core import AnalysisError, const_value, walk_own
 from ..defuse import DefUse, Terms, show, walk_term
 from ..defuse import key as tkey
-from ..tutil import lin
+from ..tutil import apply_partials, bound_args, lin
 
 EXPLANATION = (
     "Static analysis of parsers.pin_to_tsv.convert_line_pin_to_tsv / "
@@ -147,7 +148,19 @@ def _header(ctx, f):
 
 
 def _is_valid(ctx, f):
+    """Semantic conditions of every return (term form, so temporaries,
+    early-return style and chaining the second line into the loop do not
+    matter)."""
+    prog = ctx.prog
     cfg = CFG(f.node)
+    T = Terms(DefUse(prog, f))
+    p_in, p_sep = f.params[:2]
+    NEXT = ("call", "builtins.next", (("param", p_in),), ())
+
+    def width(x):
+        return ("call", "builtins.len",
+                (("mcall", x, "split", (("param", p_sep),), ()),), ())
+
     rets = [n for n in ast.walk(f.node) if isinstance(n, ast.Return)]
     trues = [r for r in rets if const_value(r.value) is True]
     falses = [r for r in rets if const_value(r.value) is False]
@@ -157,59 +170,74 @@ def _is_valid(ctx, f):
               f"returns: {[ast.unparse(r) for r in rets]}", node=f.node)
     if len(trues) != 1:
         return
-    loops = [n for n in ast.walk(f.node) if isinstance(n, ast.For)]
-    ctx.require(len(loops) == 1 and ast.unparse(loops[0].iter) ==
-                f.params[0], f"{f.qual}: loop over the remaining lines not "
-                "found")
+    loops = [n for n in walk_own(f.node) if isinstance(n, ast.For)]
+    CHAIN = ("call", "itertools.chain",
+             (("list", (NEXT,)), ("param", p_in)), ())
+    loops = [n for n in loops if T.of(n.iter) in (("param", p_in), CHAIN)]
+    ctx.require(len(loops) == 1, f"{f.qual}: loop over the remaining lines "
+                "not found")
     lp = loops[0]
+    IT = T.of(lp.iter)
+    LINE = ("elem", IT)
     tn = cfg.node_of(trues[0]).id
     ok = cfg.every_path_passes(cfg.entry.id, tn, {cfg.node_of(lp).id}) and \
-        not any(x is trues[0] for x in ast.walk(lp))
+        not inside(trues[0], lp)
     ctx.check(ok, "C19b-true-only-after-all-lines", f,
               "True is returned only after the loop over every remaining "
               "line", "return True can be reached without scanning all "
               "lines", node=trues[0])
-    # width mismatch -> False inside loop, unconditional otherwise
-    inl = [r for r in falses if any(x is r for x in ast.walk(lp))]
-    ok_in = False
-    for r in inl:
-        gs = [g for g in cfg.guards(r) if any(
-            g[0] is s.test for s in ast.walk(lp) if isinstance(s, ast.If))]
-        if len(gs) == 1 and gs[0][1] and isinstance(
-                gs[0][0], ast.Compare) and isinstance(
-                    gs[0][0].ops[0], ast.NotEq):
-            ok_in = True
+
+    def conds(r, region=None):
+        out = []
+        for t, o in cfg.necessary_conditions(r):
+            if region is not None and not inside(t, region):
+                continue
+            tt = T.of(t)
+            while tt[0] == "un" and tt[1] == "not":
+                tt, o = tt[2], not o
+            out.append(norm_cmp(tt, o) or (tt, o))
+        return out
+
+    def mismatch(c, a, b):
+        return c[0] == "ne" and {c[1], c[2]} == {a, b}
+
+    W_HDR = width(NEXT)
+    inl = [r for r in falses if inside(r, lp)]
+    ok_in = any(len(cs) == 1 and mismatch(cs[0], width(LINE), W_HDR)
+                for cs in (conds(r, lp) for r in inl))
     ctx.check(ok_in, "C19b-mismatch-rejected", f,
               "a line whose field count differs from the header's is "
-              "rejected", "no 'if n_col != n_col_header: return False' in "
-              "the loop", node=lp)
-    # header width and per-line width are computed the same way
-    du = DefUse(ctx.prog, f)
-    T = Terms(du)
-    widths = [n for n in ast.walk(f.node) if isinstance(n, ast.Assign)
-              and "len(" in ast.unparse(n.value)
-              and ".split(" in ast.unparse(n.value)]
-    seps = {ast.unparse(n.value.args[0].args[0]) if isinstance(
-        n.value, ast.Call) and n.value.args and isinstance(
-            n.value.args[0], ast.Call) and n.value.args[0].args else "?"
-        for n in widths}
-    ctx.check(len(widths) == 3 and seps == {f.params[1]},
-              "C19b-same-width-measure", f,
-              "header, second line and every further line are measured by "
-              "splitting on the same column separator",
-              f"{[ast.unparse(w) for w in widths]}", node=f.node)
-    dd = [r for r in falses if any(
-        "DefaultDirection" in ast.unparse(g[0]) and g[1]
-        for g in cfg.guards(r))]
-    ctx.check(len(dd) == 1, "C19b-default-direction-invalid", f,
+              "rejected",
+              "in the loop, False is returned under "
+              f"{[[show(c, 100) for c in conds(r, lp)] for r in inl]}",
+              node=lp)
+    ctx.check(ok_in, "C19b-same-width-measure", f,
+              "header and every further line are measured by splitting on "
+              "the same column separator",
+              "the widths compared in the loop are not len(x.split("
+              f"{p_sep})) of the line and of the header", node=lp)
+    DD = ("mcall", NEXT, "startswith", (("const", "DefaultDirection"),), ())
+    dd = [r for r in falses if (DD, True) in conds(r)]
+    ctx.check(len(dd) >= 1, "C19b-default-direction-invalid", f,
               "a DefaultDirection second line makes the file invalid",
               "no rejection of a DefaultDirection line", node=f.node)
-    # second line width compared too
-    second = [r for r in falses if not any(x is r for x in ast.walk(lp))
-              and r not in dd]
-    ctx.check(len(second) == 1, "C19b-second-line-checked", f,
+    # second line: chained into the loop, or compared on its own
+    second = [r for r in falses if not inside(r, lp) and any(
+        isinstance(c, tuple) and mismatch(c, W_HDR, W_HDR)
+        for c in conds(r))]
+    ctx.check(IT == CHAIN or len(second) >= 1, "C19b-second-line-checked", f,
               "the second line's width is compared with the header's",
               "second line not checked", node=f.node)
+
+
+def _strip_of(t, base=None):
+    """x of x.strip() / x.rstrip('\\n') ...; None otherwise"""
+    if t[0] == "mcall" and t[2] in ("strip", "rstrip") and (
+            not t[3] or all(a[0] == "const" and isinstance(a[1], str)
+                            and set(a[1]) <= set("\r\n \t")
+                            for a in t[3])):
+        return t[1]
+    return None
 
 
 def _to_valid(ctx, f):
@@ -218,97 +246,137 @@ def _to_valid(ctx, f):
     du = DefUse(prog, f)
     T = Terms(du)
     p_in, p_out, p_sepc, p_sepp = f.params[:4]
+    NEXT = ("call", "builtins.next", (("param", p_in),), ())
+    NL = ("const", "\n")
+    conv = prog.func(PT + "convert_line_pin_to_tsv")
     writes = [n for n in ast.walk(f.node) if isinstance(n, ast.Call)
-              and ast.unparse(n.func) == f"{p_out}.write"]
+              and isinstance(n.func, ast.Attribute)
+              and n.func.attr == "write" and T.of(n.func.value) == (
+                  "param", p_out) and len(n.args) == 1]
     ctx.require(len(writes) == 3, f"{f.qual}: expected header write, "
                 "second-line write and loop write")
-    wh, w2, wl = sorted(writes, key=lambda n: n.lineno)
-    hdr = T.of(wh.args[0])
-    ok_h = hdr[0] == "bin" and hdr[3] == ("const", "\n") and "next(" in \
-        tkey(hdr[2], 100) and not cfg.guards(wh)
+    facts = []
+    for w in writes:
+        t = apply_partials(T.of(w.args[0]))
+        cs = []
+        for c, o in cond_terms(cfg, T, w):
+            cs.append((c, o))
+        lp = cfg.enclosing(w, (ast.For, ast.While))
+        facts.append({"node": w, "term": t, "conds": cs, "loop": lp})
+    hdrs = [x for x in facts if x["term"][0] == "bin" and x["term"][3] == NL
+            and _strip_of(x["term"][2]) == NEXT]
+    ok_h = len(hdrs) == 1 and not hdrs[0]["conds"] and \
+        hdrs[0]["loop"] is None and all(
+            cfg.every_path_passes(
+                cfg.entry.id, cfg.node_of(cfg.stmt_of(x["node"])).id,
+                {cfg.node_of(cfg.stmt_of(hdrs[0]["node"])).id})
+            for x in facts if x is not hdrs[0])
     ctx.check(ok_h, "C19b-header-once", f,
-              "the header line is written once, first", show(hdr, 100),
-              node=wh)
-    g2 = cfg.guards(w2)
-    ok_2 = len(g2) == 1 and "DefaultDirection" in ast.unparse(g2[0][0]) \
-        and ast.unparse(g2[0][0]).startswith("not ") == g2[0][1]
-    ctx.check(ok_2, "C19b-second-line", f,
-              "the second line is written unless it is a DefaultDirection "
-              "line", f"guards: {[ast.unparse(g[0]) for g in g2]}",
-              node=w2)
-    loops = [n for n in ast.walk(f.node) if isinstance(n, ast.For)]
-    ok_l = len(loops) == 1 and ast.unparse(loops[0].iter) == p_in and \
-        any(x is wl for x in ast.walk(loops[0])) and not [
-            g for g in cfg.guards(wl)] and not any(
-            isinstance(x, (ast.Break, ast.Continue, ast.Return))
-            for x in ast.walk(loops[0]))
-    ctx.check(ok_l, "C19b-every-line-written", f,
-              "every further line is converted and written, in order",
-              "the loop over the remaining lines skips or stops",
-              node=loops[0] if loops else f.node)
-    conv = prog.func(PT + "convert_line_pin_to_tsv")
-    calls = [n for n in ast.walk(f.node) if isinstance(n, ast.Call)
-             and ast.unparse(n.func) == "convert_line_pin_to_tsv"]
-    ctx.floor("C19b-converter-calls", len(calls), 2)
-    hp = [n for n in ast.walk(f.node) if isinstance(n, ast.Assign)
-          and "parse_pin_header_columns" in ast.unparse(n.value)]
-    ok_hp = len(hp) == 1 and isinstance(hp[0].targets[0], ast.Tuple)
-    names = [e.id for e in hp[0].targets[0].elts] if ok_hp else ["?", "?"]
-    for c in calls:
-        b = prog.bind(conv, c)
-        got = {k: ast.unparse(v) for k, v in b.items()}
-        ok = (got.get("n_col") == names[0]
-              and got.get("idx_protein_col") == names[1]
-              and got.get("sep_column") == p_sepc
-              and got.get("sep_protein") == p_sepp)
+              "the header line is written once, first",
+              f"{[show(x['term'], 100) for x in facts]}",
+              node=writes[0])
+    ctx.check(ok_h, "C19b-line-terminator", f,
+              "the header's terminator is removed with strip()/rstrip()",
+              f"header is written as {[show(x['term'], 80) for x in hdrs]}",
+              node=writes[0])
+    others = [x for x in facts if not (hdrs and x is hdrs[0])]
+    HP = None
+    for x in others:
+        t = x["term"]
+        ok = t[0] == "bin" and t[3] == NL and t[2][0] == "call" and \
+            t[2][1] == conv.qual
+        ctx.check(ok, "C19b-writes-converted-line", f,
+                  "what is written is the converted line plus a newline",
+                  show(t, 100), node=x["node"])
+        if not ok:
+            continue
+        b = bound_args(prog, t[2]) or {}
+        x["line"] = b.get("line")
+        nc, ic = b.get("n_col"), b.get("idx_protein_col")
+        ok = (nc is not None and ic is not None and nc[0] == "item"
+              and ic[0] == "item" and nc[1] == ic[1] and (nc[2], ic[2]) ==
+              (0, 1) and nc[1][0] == "call" and nc[1][1] == PT +
+              "parse_pin_header_columns"
+              and b.get("sep_column") == ("param", p_sepc)
+              and b.get("sep_protein") == ("param", p_sepp))
+        if ok:
+            hb = bound_args(prog, nc[1]) or {}
+            ok = _strip_of(hb.get("header", ("x",))) == NEXT and \
+                hb.get("sep_column") == ("param", p_sepc)
         ctx.check(ok, "C19b-converter-arguments", f,
                   "the converter gets the header's column count and "
                   "protein index and the caller's separators",
-                  f"{got}", node=c)
-    # line terminators are removed by stripping, never by position
-    for c in calls:
-        b = prog.bind(conv, c)
-        lt = T.of(b["line"]) if "line" in b else None
-        ok = lt is not None and lt[0] == "mcall" and lt[2] in (
-            "strip", "rstrip") and (not lt[3] or all(
-                a[0] == "const" and isinstance(a[1], str)
-                and set(a[1]) <= set("\r\n \t") for a in lt[3]))
-        ctx.check(ok, "C19b-line-terminator", f,
+                  f"{ {k: show(v, 60) for k, v in b.items()} }",
+                  node=x["node"])
+        src = _strip_of(x["line"]) if x.get("line") else None
+        ctx.check(src is not None, "C19b-line-terminator", f,
                   "the line given to the converter has its terminator "
                   "removed with strip()/rstrip()",
-                  f"the line is prepared as {show(lt, 80) if lt else None}:"
+                  "the line is prepared as "
+                  f"{show(x['line'], 80) if x.get('line') else None}:"
                   " removing the terminator by position cuts a character "
-                  "off a last line that has no trailing newline", node=c)
-    ht = T.of(wh.args[0])
-    okh = any(x[0] == "mcall" and x[2] in ("strip", "rstrip")
-              for x in walk_term(ht))
-    ctx.check(okh, "C19b-line-terminator", f,
-              "the header's terminator is removed with strip()/rstrip()",
-              f"header is written as {show(ht, 80)}", node=wh)
-    # what is written is the converted line + newline
-    for w in (w2, wl):
-        t = T.of(w.args[0])
-        ok = t[0] == "bin" and t[3] == ("const", "\n") and t[2][0] == \
-            "call" and t[2][1] == conv.qual
-        ctx.check(ok, "C19b-writes-converted-line", f,
-                  "what is written is the converted line plus a newline",
-                  show(t, 100), node=w)
+                  "off a last line that has no trailing newline",
+                  node=x["node"])
+        x["src"] = src
+    seconds = [x for x in others if x.get("src") == NEXT]
+    DD = ("mcall", ("mcall", NEXT, "strip", (), ()), "startswith",
+          (("const", "DefaultDirection"),), ())
+
+    def is_dd(c):
+        return c[0] == "mcall" and c[2] == "startswith" and c[3] == (
+            ("const", "DefaultDirection"),) and (
+                c[1] == NEXT or _strip_of(c[1]) == NEXT)
+
+    ok_2 = len(seconds) == 1 and seconds[0]["loop"] is None and [
+        (is_dd(c), o) for c, o in seconds[0]["conds"]] == [(True, False)]
+    ctx.check(ok_2, "C19b-second-line", f,
+              "the second line is written unless it is a DefaultDirection "
+              "line",
+              f"second-line writes: {[(show(x['term'], 60), [(show(c, 60), o) for c, o in x['conds']]) for x in seconds]}",
+              node=writes[0])
+    rest = [x for x in others if x.get("src") == ("elem", ("param", p_in))]
+    ok_l = len(rest) == 1 and rest[0]["loop"] is not None and \
+        T.of(rest[0]["loop"].iter) == ("param", p_in) and \
+        not rest[0]["conds"] and not any(
+            isinstance(n, (ast.Break, ast.Continue, ast.Return))
+            for n in ast.walk(rest[0]["loop"]))
+    ctx.check(ok_l, "C19b-every-line-written", f,
+              "every further line is converted and written, in order",
+              "the loop over the remaining lines skips or stops",
+              node=rest[0]["node"] if rest else f.node)
 
 
 def _main_verify(ctx, f):
+    prog = ctx.prog
     calls = [n for n in ast.walk(f.node) if isinstance(n, ast.Call)
              and ast.unparse(n.func) == "pin_to_valid_tsv"]
     ctx.require(len(calls) == 1, f"{f.qual}: conversion call not found")
     cfg = CFG(f.node)
-    gs = [ast.unparse(g[0]) + ("" if g[1] else " [else]")
-          for g in cfg.guards(calls[0])]
-    ok = "not valid_tsv" in gs and "config.verify_pin" in gs
-    ctx.check(ok, "C19c-convert-only-invalid", f,
+    T = Terms(DefUse(prog, f))
+    cs = cond_terms(cfg, T, calls[0])
+    verify = [c for c, o in cs if o and c[0] == "attr"
+              and c[2] == "verify_pin"]
+    invalid = [c for c, o in cs if not o and c[0] == "call"
+               and c[1] == PT + "is_valid_tsv"]
+    ctx.check(bool(verify) and bool(invalid), "C19c-convert-only-invalid", f,
               "only files reported invalid are converted, and only when "
-              "verification is requested", f"guards: {gs}", node=calls[0])
-    v = [n for n in ast.walk(f.node) if isinstance(n, ast.Assign)
-         and ast.unparse(n.targets[0]) == "valid_tsv"]
-    ok_v = len(v) == 1 and ast.unparse(v[0].value) == "is_valid_tsv(f_pin)"
+              "verification is requested",
+              f"conditions: {[(show(c, 80), o) for c, o in cs]}",
+              node=calls[0])
+    ok_v = False
+    if invalid:
+        b = bound_args(prog, T.of(calls[0])) or {}
+        src = b.get("f_in")
+        chk = invalid[0][2][0] if invalid[0][2] else None
+
+        def opened(t):
+            if t and t[0] == "with" and t[1][0] == "call" and \
+                    t[1][1] in ("builtins.open", "open") and t[1][2]:
+                return t[1][2][0]
+            return None
+        ok_v = opened(src) is not None and opened(src) == opened(chk)
     ctx.check(ok_v, "C19c-validity-from-predicate", f,
-              "validity comes from is_valid_tsv on the same file",
-              f"{[ast.unparse(x.value) for x in v]}", node=f.node)
+              "validity comes from is_valid_tsv on the same file that is "
+              "converted",
+              f"conditions: {[(show(c, 120), o) for c, o in cs]}",
+              node=calls[0])
